@@ -3187,6 +3187,42 @@ fn gen_c16(rng: &mut Rng, ops: &mut Vec<String>, stats: &mut Stats) {
     let a = 999 + 1000 * rng.range(0, 30);
     ops.push(format!("snew A k{} 1 4 0 ip4 all 16 16 0", a));
     let local_id = id_of_seed(a);
+    if rng.chance(1, 3) {
+        // directed: the shared /24 is one short of the table's limit; three known nodes of other subnets
+        // (in buckets that hold nobody of the /24) announce, in ONE answer to a lookup request, newer
+        // records that move them into it: one of them fits, not all three
+        stats.bump("gen.c16.service.several-nodes-move-into-the-subnet-in-one-answer");
+        let mut n_shared = 0;
+        'outer: for d in [256u64, 255, 254, 253, 252] {
+            for _ in 0..2 {
+                if n_shared == 9 { break 'outer; }
+                if let Some(sd) = mine(rng.below(1 << 30), |id| dist(&local_id, id) == d) {
+                    ops.push(format!("sest A k{}:1:s:0 = {}", sd, if rng.chance(1, 2) { "o" } else { "i" }));
+                    n_shared += 1;
+                }
+            }
+        }
+        let mut movers: Vec<u64> = Vec::new();
+        for d in [251u64, 250, 249] {
+            if let Some(sd) = mine(rng.below(1 << 30), |id| dist(&local_id, id) == d) {
+                ops.push(format!("sest A k{}:1:4:0 = o", sd));
+                movers.push(sd);
+            }
+        }
+        ops.push("stable A".into());
+        for round in 0..4u64 {
+            ops.push(format!("squery A {}", hex::encode(rng.bytes(32))));
+            for j in 0..3u64 {
+                let items: Vec<String> = movers.iter().map(|m| format!("k{}:{}:s:0", m, 2 + round * 3 + j)).collect();
+                ops.push(format!("sresp A #q ok nodes 1 {}", items.join(",")));
+            }
+            for _ in 0..16 {
+                ops.push("sfail A #q".into());
+            }
+        }
+        ops.push("stable A".into());
+        return;
+    }
     // two peers of the shared /24 in each of several buckets, then more: the table takes ten
     let mut shared: Vec<u64> = Vec::new();
     let mut others: Vec<u64> = Vec::new();
